@@ -325,6 +325,14 @@ func (r *rt) traffic() {
 	if h == 0 || v > 1000 {
 		return
 	}
+	// the node leads the NEXT view: its peers' votes for it may arrive before its own timer fires (elected ahead of its timer:
+	// it jumps to that view and proposes there, with the context of THAT view)
+	if r.leaderIdx(h, v+1) == 0 && r.intn(4) == 0 {
+		for i := 1; i < r.cl.nMembers; i++ {
+			r.deliver(r.adv.mkVC(voteD{ht: protocol.LEAN_HELIX_VIEW_CHANGE, inst: clusterInstance, h: h, v: v + 1, sender: r.cl.ids[i]}, nil), "VC")
+		}
+		return
+	}
 	leaderIdx := r.leaderIdx(h, v)
 	var blk *vBlock
 	if leaderIdx == 0 {
